@@ -104,6 +104,21 @@ fn run_variant(ctx: &Ctx, env: &Env, prop: &str, cseed: u64, base_case: &ConvCas
     }
     let sig = format!("{}|{:x}|{:x}", prop, cseed & 0xffff_ffff, fnv(format!("{:?}", ends).as_bytes()));
     rep.eval(if really_segmented { Some(&sig) } else { None });
+    // A reset that reaches the client before its reader has taken a response out of the socket
+    // destroys that response (TCP discards unread data on RST). When the server has rejected a
+    // request and closed, the segments the client sends *afterwards* provoke exactly such a reset;
+    // whether the already written 400 survives is decided in the client's kernel, not by the
+    // library. Deliveries identical, responses a proper prefix of the baseline's and the
+    // connection ended by a reset: that difference is not attributed to the server.
+    if c != base_canon && obs.end == End::Rst {
+        let ds = |v: &[String]| v.iter().filter(|x| x.starts_with("D ")).cloned().collect::<Vec<_>>();
+        let rs = |v: &[String]| v.iter().filter(|x| x.starts_with("R ")).cloned().collect::<Vec<_>>();
+        let (rv, rb) = (rs(&c), rs(base_canon));
+        if ds(&c) == ds(base_canon) && rv.len() < rb.len() && rb[..rv.len()] == rv[..] {
+            rep.inconclusive("variant ended by a connection reset before the client had read the last response(s)");
+            return;
+        }
+    }
     if c != base_canon {
         let diff_at = c.iter().zip(base_canon.iter()).position(|(a, b)| a != b).unwrap_or(c.len().min(base_canon.len()));
         rep.violation(Violation {
@@ -116,6 +131,7 @@ fn run_variant(ctx: &Ctx, env: &Env, prop: &str, cseed: u64, base_case: &ConvCas
             ),
             detail: J::obj()
                 .set("corpus_property", J::s(prop))
+                .set("variant_end", J::s(format!("{:?}", obs.end)))
                 .set("conversation_seed", J::S(cseed.to_string()))
                 .set("segment_ends", J::A(ends.iter().take(200).map(|e| J::u(*e)).collect()))
                 .set("wire", J::S(crate::util::esc(&base_case.wire, 800)))
